@@ -9,7 +9,7 @@ use crate::util::{par_map, Kv};
 
 pub fn meta(ctx: &Ctx) -> Meta {
     Meta {
-        rule: format!("single layers: FULL lattice L (kernel 1-3 x stride 1-2(3 for pool) x padding 0-2 x dilation 1-2 x channels 1-2 x filters 1-3 x planes {{1,2,3,4,5,6}}x{{1,2,3,4,5,7}}, rectangular and asymmetric included) for convolution, deconvolution, max-pool with linear activation on pairwise-distinct integer data{}, both input representations (flat vector / CxHxW, must be bit-identical); ring of <= {} deviations x E5 x dyadic data; dense n,m in 1..4 x E5+softmax x bias; networks: every sequence of <= {} layers from {{dense,conv,deconv,pool,feedback}} over 5 input shapes with <= {} configuration deviations that the reference accepts. Oracle: definitional reference forward, pre- and post-activation of every layer. Non-trivial = case whose reference output has >= 2 distinct non-zero entries",
+        rule: format!("single layers: FULL lattice L (kernel 1-3 x stride 1-2(3 for pool) x padding 0-2 x dilation 1-2 x channels 1-2 x filters 1-3 x planes {{1,2,3,4,5,6}}x{{1,2,3,4,5,7}}, rectangular and asymmetric included) for convolution, deconvolution, max-pool with linear activation on pairwise-distinct integer data{}, both input representations (flat vector / CxHxW, must be bit-identical); ring of <= {} deviations x E5 x dyadic data; dense n,m in 1..4 x E5+softmax x bias; a LARGE-VALUE ring (kernel 5,7; stride 3,4; padding 3; dilation 3; 4,8 channels; 8,16 filters; planes 12x13, 28x32) walked with <= 1 (thorough 2) deviations; wide dense layers (33, 64, 65, 100, 257); one 6-layer network; networks: every sequence of <= {} layers from {{dense,conv,deconv,pool,feedback}} over 5 input shapes with <= {} configuration deviations that the reference accepts. Oracle: definitional reference forward, pre- and post-activation of every layer. Non-trivial = case whose reference output has >= 2 distinct non-zero entries",
             if ctx.tier.thorough() { " and dyadic data, and ReLU" } else { "" }, if ctx.tier.thorough() { 3 } else { 2 }, 3, if ctx.tier.thorough() { 2 } else { 1 }),
         bound: "kernel <= 3, stride <= 2 (3 pool), padding <= 2, dilation <= 2, planes <= 6x7, depth <= 3".into(),
         exhaustive: true,
@@ -210,6 +210,13 @@ pub fn check(ctx_seed: u64, case: &Kv, rep: &mut Report) {
             let net = Net::new(input, vec![l]);
             check_net(&net, val, case.bool("flat"), ctx_seed, case, rep);
         }
+        "xlattice" => {
+            let kind = kind_parse(case.get("layer"));
+            let ix: Vec<usize> = case.list("ix").iter().map(|s| s.parse().unwrap()).collect();
+            let (input, l) = xlattice_point(kind, &ix, Act::parse(case.get("act"))).expect("invalid large-value lattice point in case");
+            let net = Net::new(input, vec![l]);
+            check_net(&net, val, case.bool("flat"), ctx_seed, case, rep);
+        }
         _ => {
             let net = Net::parse(case.get("net"));
             check_net(&net, val, case.bool("flat"), ctx_seed, case, rep);
@@ -248,6 +255,42 @@ pub fn cases(ctx: &Ctx) -> Vec<Kv> {
                     out.push(Kv::new().put("kind", "lattice").put("layer", kind_name(kind)).put("ix", ixs(&ix)).put("act", act.name()).put("val", "dyadic").put("flat", (ix.iter().sum::<usize>() % 2) as u8));
                 }
             }
+        }
+    }
+    // large-value ring: one (thorough: two) dimensions far outside the small lattice
+    for kind in [Kind::Conv, Kind::Deconv, Kind::Pool] {
+        let doms = xlattice_domains(kind);
+        for ix in deviations(&doms, if thorough { 2 } else { 1 }) {
+            if !xlattice_is_new(kind, &ix) || xlattice_point(kind, &ix, Act::Linear).is_none() {
+                continue;
+            }
+            let act = if ix.iter().sum::<usize>() % 2 == 0 { "linear" } else { "relu" };
+            out.push(Kv::new().put("kind", "xlattice").put("layer", kind_name(kind)).put("ix", ixs(&ix)).put("act", act).put("val", "dyadic").put("flat", (ix.iter().sum::<usize>() % 3 == 0) as u8));
+        }
+    }
+    // wide dense layers (beyond any small unrolling / blocking factor)
+    for (n_in, n_out) in [(33usize, 2usize), (2, 33), (65, 64), (100, 100), (64, 10), (257, 3)] {
+        for act in [Act::Linear, Act::Tanh, Act::Softmax] {
+            let net = Net::new(Dims::Flat(n_in), vec![L::Dense { n: n_out, act, bias: true, drop: None }]);
+            out.push(Kv::new().put("kind", "net").put("net", net.name()).put("val", "dyadic").put("flat", 0));
+        }
+    }
+    // a deeper network with wide layers and many channels
+    {
+        let net = Net::new(
+            Dims::Chw(3, 12, 13),
+            vec![
+                L::Conv { f: 8, k: (5, 5), s: (2, 2), p: (2, 2), d: (1, 1), act: Act::Relu, drop: None },
+                L::Conv { f: 4, k: (3, 3), s: (1, 1), p: (1, 1), d: (1, 1), act: Act::Relu, drop: None },
+                L::Pool { k: (2, 2), s: (2, 2) },
+                L::Deconv { f: 5, k: (3, 3), s: (2, 2), p: (1, 1), act: Act::Linear, drop: None },
+                L::Dense { n: 40, act: Act::Relu, bias: true, drop: None },
+                L::Dense { n: 10, act: Act::Linear, bias: true, drop: None },
+            ],
+        );
+        if ref_shapes(&net).is_ok() {
+            out.push(Kv::new().put("kind", "net").put("net", net.name()).put("val", "dyadic").put("flat", 0));
+            out.push(Kv::new().put("kind", "net").put("net", net.name()).put("val", "dyadic").put("flat", 1));
         }
     }
     // dense layers
